@@ -117,6 +117,9 @@ int main(int argc, char **argv) {
 	std::string rdir = opt.count("replays") ? opt["replays"] : "replays";
 	mkdir(rdir.c_str(), 0755);
 
+	std::string corpus = opt.count("corpus") ? opt["corpus"] : "";
+	if (!corpus.empty()) mkdir(corpus.c_str(), 0755);
+	long corpus_written = 0;
 	long max_shrinks = atol(opt.count("max-shrinks") ? opt["max-shrinks"].c_str() : "1500");
 	long evals = 0, nontriv = 0, shrink_runs = 0;
 	std::set<uint64_t> distinct_nt, distinct_all;
@@ -174,6 +177,11 @@ int main(int argc, char **argv) {
 		distinct_all.insert(v.hash);
 		if (v.nontrivial) {
 			nontriv++;
+			if (!corpus.empty() && corpus_written < 300 && distinct_nt.count(v.hash) == 0) {
+				// seed corpus for the libFuzzer driver: the raw case bytes (schedule bytes appended as the last eighth)
+				std::ofstream cf(corpus + "/seed-" + seed + "-" + std::to_string(corpus_written++));
+				cf.write((const char *) data.data(), (std::streamsize) data.size());
+			}
 			if (distinct_nt.insert(v.hash).second && samples.size() < 5 &&
 			    (distinct_nt.size() % 7 == 1 || samples.size() < 2))
 				samples.push_back(v.desc);
